@@ -6,7 +6,8 @@ CHECKS = {
         text='Bounded symbolic execution (CrossHair/z3, all paths) of the real segmenter, visible-record wrapper, '
              'record-length check and storage-unit-label encoder: for every even capacity 12..16376, every body length '
              'up to 3 (thorough 6) capacities + 30, both record kinds and every type byte the yielded segments satisfy '
-             'the RP66 segment rules; label fields proved by digit arithmetic for every sequence number / record length.',
+             'the RP66 segment rules; label fields proved by digit arithmetic for every sequence number / record length.'
+         ' Also: the loop step and the segment arithmetic for ALL body lengths by SMT (K2, z3 + cvc5); the wiring of write_logical_records for every record length; a monolithic two-record run at small bounds; fixed-width label / header text fields at their limit with trailing blanks (enumerated window).',
         note='Trusted: CrossHair model of CPython incl. struct.pack on ints; Rope/StructShim/LenStr stubs (validated each '
              'run); bodies are abstract (content is C04/C06). Longer bodies are outside the engine-A bound.'),
     'C15': dict(
@@ -21,7 +22,8 @@ CHECKS['C06'] = dict(
          'fixed-width integer codes, UVARI and STATUS over ALL integers (in range => exact big-endian bytes, out of range '
          '=> exception), IDENT/ASCII with symbolic length (prefix form, rejection limits) and short fully symbolic text, '
          'OBNAME/OBJREF with symbolic origin/copy/name length, DTIME with symbolic calendar fields; UVARI additionally as '
-         'LIA over Z and the DTIME millisecond rounding as an IEEE-754 query on z3 and cvc5.',
+         'LIA over Z and the DTIME millisecond rounding as an IEEE-754 query on z3 and cvc5.'
+         ' Boundary windows around every UVARI threshold, every integer range edge and the OBNAME limits are additionally decided by enumeration (an encoder rewritten with bit operators only makes the symbolic obligations inconclusive).',
     note='FSINGL/FDOUBL values are delegated to struct.pack (only the format table is pinned); non-ASCII rejection is a '
          'call-site contract on .encode("ascii"); strings longer than 3 characters have abstract content.')
 CHECKS['C01']['smt'] = True
@@ -41,7 +43,8 @@ CHECKS['C10'] = dict(
     text='One step of BufferedOutput from an arbitrary pre-state (buffer up to 2**33, any fill) + final flush: bytes reach '
          'the writer once, in order, every flush <= chunk and on a record boundary, total_size exact; ByteWriter over a fake '
          'file system: first write truncates prior content, later ones append; chunk-size check over all integers; wiring + '
-         'monolithic glue with symbolic output chunk size.',
+         'monolithic glue with symbolic output chunk size.'
+         ' make_chunked_generator tiling and MultiFrameData iteration for every input chunk size (shared with C03/C11).',
     note='Independence from input_chunk_size is the chunk-tiling obligation of C03/C11 (not repeated here). Float chunk sizes and '
          'the OS honouring wb/ab are outside the solver; RopeArray/FakeFS are validated against bytearray / a real file each run.')
 CHECKS['C16'] = dict(
@@ -66,7 +69,8 @@ CHECKS['C07'] = dict(
          'an OBJREF value and at the head of frame-data and no-format records; every reference attribute x every item class '
          'accepts exactly its admissible class and stores the object passed; origin numbering with two symbolic explicit/default '
          'references and a zone added before/between/after; uniqueness across sets of one type (known finding F6 excluded by '
-         'predicate and decided separately by an existence obligation).',
+         'predicate and decided separately by an existence obligation).'
+         ' Copy numbers with symbolic explicit origin references before/after the origin exists; DLISFile.generate_logical_records over two logical files.',
     note='Explicit origin references naming no ORIGIN are accepted by design and not asserted. F6 (same name in two sets of one '
          'type) is a recorded known finding.')
 CHECKS['C09'] = dict(
@@ -74,7 +78,8 @@ CHECKS['C09'] = dict(
          'origins yields header (one object), ORIGIN set with the defining origin first, every other set once and non-empty, then '
          'no-format records in call order, then frame data; the FILE-HEADER record is parsed by the component grammar with the '
          'sequence number proved right-justified in 10 by digit arithmetic and the id left-justified in 65; construction-time '
-         'rejections over all integers; set registry step from all 64 states; FILE-ID / FILE-SET-NUMBER / clock / RNG use.',
+         'rejections over all integers; set registry step from all 64 states; FILE-ID / FILE-SET-NUMBER / clock / RNG use.'
+         ' An empty set (e.g. left by a rejected call) yields no segment for every item class and capacity; the origin-set order for 5 configurations of named/unnamed origin sets.',
     note='Frame data is represented by an iterable stub in the order obligation (its own structure is C03). RNG and clock are '
          'nondeterministic stubs.')
 CHECKS['C17'] = dict(
@@ -93,7 +98,8 @@ CHECKS['C11'] = dict(
          'with and one without leading slash, unused datasets, permuted source order) and symbolic total/window/chunk bounds the chunk '
          'returned by the real wrappers is proved to show exactly source rows [from+start, from+stop) of every channel in the frame\'s '
          'channel order; invalid windows are refused; MultiFrameData yields one numbered record per row for every input chunk size; '
-         'make_chunked_generator tiles [0,n) exactly once.',
+         'make_chunked_generator tiles [0,n) exactly once.'
+         ' Unique dataset names for three channels with symbolic names and explicit dataset names; a fifth source kind (structured array with permuted fields).',
     note=NP_NOTE + ' Byte-identity of the files across source kinds / chunk sizes / pre-sliced inline arrays is confirmed by replay on every witness, not by the solver.')
 CHECKS['C03'] = dict(
     text='Structure of the frame-data stream: exactly one FrameData per row, numbered 1..N, referencing its frame, row k carrying source '
@@ -108,7 +114,8 @@ CHECKS['C08'] = dict(
 CHECKS['C19'] = dict(
     text='Taint obligation over the whole Python-level data path (4 source kinds x cast x byte order x chunking): no in-place operation '
          'reaches caller-owned memory or a view of it; the dict passed as data keeps its keys and value objects and nothing passed is '
-         'retained in the specification.',
+         'retained in the specification.'
+         ' Cast targets include integer dtypes (masked in-place assignment through a view is recorded by the stub).',
     note=NP_NOTE + ' The stub models these in-place operations: item/field assignment, byteswap(inplace), sort, fill, |=, +=, *=; anything else raises StubGap.')
 CHECKS['C12'] = dict(
     text='Rejection side of fail-closed: different row counts, unsupported dtypes, >2 dimensions, missing datasets, empty/oversized '
@@ -123,14 +130,16 @@ CHECKS['C05'] = dict(
          'the full code range, symbolic short text, references as the identity of the object passed, status, dimensions, units); the '
          'four assignment routes are proved equivalent for symbolic text and never-assigned attributes decode as absent; write-time '
          'defaults of channel / origin / parameter / computation are proved to be the only additions; DTIME fields symbolically plus '
-         'the millisecond rounding as an IEEE-754 query; float(int).is_integer() lemma.',
+         'the millisecond rounding as an IEEE-754 query; float(int).is_integer() lemma.'
+         ' Every keyword of every add_* method (150 sites found by introspection) is proved to land in the attribute of that name and nowhere else; units given as a Unit enumeration member decode as its text.',
     note='Float and date-time values are concrete examples (struct / datetime C code); strptime parsing and local-time interpretation of '
          'naive datetimes are outside; text longer than 3 characters has abstract content.')
 CHECKS['C13'] = dict(
     text='The real spacing/direction function on a value-level integer array stub (same-dtype wrapping np.diff validated against numpy): '
          'for all 6 integer dtypes, 1..3 rows and ALL values of the dtype, uniform differences give exactly the signed true difference, '
          'direction is the monotonic sense, a single row gives no spacing; the assignment logic (index type or not, user-supplied '
-         'min/max/spacing/direction kept, units copied, refusal in the high-compatibility mode) over all flag combinations.',
+         'min/max/spacing/direction kept, units copied, refusal in the high-compatibility mode) over all flag combinations.'
+         ' A 2-D first channel without index type gives INDEX-MAX = number of rows; user-supplied values include 0.',
     note='The near-uniform float tolerance test is outside the claim: the stub returns an arbitrary boolean for it and nothing is asserted '
          'about the spacing in that branch; float indices / NaN are outside. F9 (values of the first write persist) is a recorded known finding.')
 CHECKS['C14'] = dict(
@@ -144,14 +153,16 @@ CHECKS['C18'] = dict(
     text='Two logical files built by real add_* calls in six interleavings with symbolic zone-set names and explicit/default origin '
          'reference: either refused, or each file opens with its own header in creation order, its sets hold only its own objects and '
          'every object carries an origin of its own file; two frames with symbolic row counts and chunk sizes are numbered independently '
-         'from 1 and carry only their own channels.',
+         'from 1 and carry only their own channels.'
+         ' generate_logical_records over two logical files and inline data under equal dataset names with one dict passed to write.',
     note='F12 (same set class and name in two logical files gives one shared set object) is a recorded known finding, excluded by predicate '
          'and decided by an existence obligation. Frame data rides on the npstub contract.')
 CHECKS['C20'] = dict(
     text='For every item class and four kinds of rejection a constructor call that raises leaves the set exactly as it was and a same-named '
          'object added afterwards gets the copy number it would have had; add_* calls rejected for an enumeration value, a reference, a '
          'cast dtype or a data argument leave no object, no data and no dataset name behind; encode-step idempotence (a write-time default '
-         'must not make the next write fail).',
+         'must not make the next write fail).'
+         ' Falsy invalid arguments; the empty set left by a rejected first use is never written; record order after a rejected call (F21 known finding for the first-use case).',
     note='A write that fails after the data-dependent set-up and is then repeated shares the carrier of F9 (known finding).')
 
 NOT_APPLICABLE = []   # every property is decided by this technique; parts out of its reach are listed per check (level_note, DESIGN 4)
